@@ -62,8 +62,84 @@ def run(ctx):
     if mism:
         # a correspondence broke: search harder for a concrete overspending stream (failing-input search)
         bound_search(ctx, sorted(mism), 60, (3000, 4000), "c04search", escalate=True)
+    strategy_bound(ctx)
     ctx.sample({"kind": recs[0].p["kind"], "params": recs[0].p, "ops": len(recs[0].ops)})
     ctx.extra["exhaustive"] = False
+
+
+def strategy_bound(ctx):
+    """The bound on the real stream STRATEGIES that wrap the window-based managers (default manager created lazily from `budget`, and
+    an explicit manager whose own budget differs from the strategy's - documented: the manager is used as it is), with a classifier
+    that is maximally uncertain about every instance (the adversarial stream for them), at every prefix, for several chunkings."""
+    import warnings
+    import skactiveml.stream as st
+    import skactiveml.stream.budgetmanager as bm
+    from skactiveml.base import SkactivemlClassifier
+
+    class Uniform(SkactivemlClassifier):
+        def fit(self, X, y, sample_weight=None):
+            self.classes_ = np.array([0, 1])
+            return self
+
+        def predict_proba(self, X):
+            return np.full((len(X), 2), 0.5)
+
+    clf = Uniform(classes=[0, 1]).fit(None, None)
+    confs = [("FixedUncertainty", st.FixedUncertainty, bm.FixedUncertaintyBudgetManager, "Fixed"),
+             ("VariableUncertainty", st.VariableUncertainty, bm.VariableUncertaintyBudgetManager, "Variable"),
+             ("RandomVariableUncertainty", st.RandomVariableUncertainty, bm.RandomVariableUncertaintyBudgetManager, "RandVar"),
+             ("Split", st.Split, bm.SplitBudgetManager, "Split")]
+    for name, cls, mgr, kind in confs:
+        for h in range(4 if ctx.is_quick else 24):
+            rng = ctx.rng("c04strat", name, h)
+            budget = float(rng.choice([0.05, 0.1, 0.3]))
+            w = int(rng.choice([10, 100]))
+            explicit = h % 2 == 1
+            kw = {"budget": budget, "random_state": int(rng.integers(0, 1000))}
+            if name == "FixedUncertainty":
+                kw["classes"] = [0, 1]
+            eff = budget
+            if explicit:
+                eff = float(rng.choice([b for b in (0.05, 0.1, 0.3) if b != budget]))
+                mkw = {"budget": eff, "w": w}
+                if name == "FixedUncertainty":
+                    mkw["classes"] = [0, 1]
+                import inspect
+                if "random_state" in inspect.signature(mgr.__init__).parameters:
+                    mkw["random_state"] = kw["random_state"] + 1
+                kw["budget_manager"] = mgr(**mkw)
+            else:
+                w = 100
+            chunk = int(rng.choice([1, 1, 5, 20]))
+            n = int(rng.integers(300, 600)) if ctx.is_quick else int(rng.integers(600, 2000))
+            p = {"kind": kind if kind in S.ZL else S.ZL[0], "budget": eff, "w": w}
+            with warnings.catch_warnings():
+                warnings.simplefilter("ignore")
+                qs = cls(**kw)
+                granted, pos, worst = 0, 0, None
+                try:
+                    while pos < n:
+                        k = min(chunk, n - pos)
+                        cand = rng.normal(size=(k, 2))
+                        idx = qs.query(cand, clf=clf)
+                        qs.update(cand, idx)
+                        iset = {int(i) for i in idx}
+                        for i in range(k):
+                            granted += (i in iset)
+                            m = pos + i + 1
+                            if granted > S.grants_bound(p, m) + 1e-9 * m and worst is None:
+                                worst = (m, granted, S.grants_bound(p, m))
+                        pos += k
+                except Exception as e:
+                    ctx.violation(name, "exception", repr(e)[:300], {"strategy": name, "params": {k: repr(v) for k, v in kw.items()}, "chunk": chunk})
+                    continue
+            ctx.count("strategy_bound:" + name, n)
+            if granted:
+                ctx.nontriv(("stratbound", name, budget, eff, w, chunk, explicit))
+            if worst:
+                ctx.violation(name, "budget_exceeded", f"{worst[1]} labels granted among the first {worst[0]} instances, bound {worst[2]:.3f}",
+                              {"strategy": name, "budget": budget, "explicit_manager_budget": eff if explicit else None, "w": w, "chunk": chunk, "n": n, "seed": kw["random_state"]},
+                              what=f"{name} (strategy) granted {worst[1]} labels in {worst[0]} maximally uncertain instances (bound {worst[2]:.2f}; manager budget={eff}, w={w}, chunk={chunk})")
 
 
 def bound_search(ctx, kinds, nl, nrange, tag, escalate=False):
